@@ -38,8 +38,8 @@ def cells(tier):
         out.append(cell(f"s{size} A3 flush flush-caller-cancelled B1 slowecb0", sc, MON))
         sc = scen(pool(size), [[A("A", 2, worker="instant")], [cancel(rid("A", 0))], [A("B", 2)]], outcomes=["ret"], ecb="slow", ccb="plain", slow_ids=[0, 1])
         out.append(cell(f"s{size} A2 instant cancel0 B2 slowecb", sc, MON))
-    sc = scen([pool(1), pool(2)], [[A("A", 2)], [M("M", 3, 2, p=1)], [cgroup("A")], [["flush", {"p": 1}]]], outcomes=["ret", "exc"], ecb="plain", ccb="plain")
-    out.append(cell("two pools s1/2 A2|M3/2@1 cgroupA flush@1", sc, MON))
+    sc = scen([pool(1), pool(2)], [[A("A", 2)], [M("M", 2, 2, p=1)], [cgroup("A")]], outcomes=["ret"], ecb="plain", ccb="plain")
+    out.append(cell("two pools s1/2 A2|M2/2@1 cgroupA", sc, MON))
     # SimpleTaskPool
     for size in [0, 1, 2]:
         sc = scen(pool(size, "SimpleTaskPool", ecb="plain", ccb="plain"), [[S("S", 2)], [S("T", 2)], [["stop", 1]]],
